@@ -1,7 +1,7 @@
 (* Properties_C02.v — C02: every finished output is one well-formed, schema-valid C-DNS document.
    Only statements live here. *)
 Require Import Base Cbor EncoderModel DecoderModel DecoderProofs Schema SchemaProofs Block Exporter ExporterProofs Properties_C09
-               BlockRead FileProofs.
+               BlockRead FileProofs E2ESpec BlockDecode ViewProofs AecView EndToEnd.
 Local Open Scope N_scope.
 
 (* what any structure of the format writes is the serialisation of exactly ONE well-formed CBOR item (the canonical tree
@@ -80,6 +80,16 @@ Proof.
   rewrite <- (app_nil_r (ser _)). apply skip_item_spec; auto.
 Qed.
 Print Assumptions C02_output_skips.
+
+(* every index stored in an item or in a table entry addresses an existing entry of the right table: over every history, every item of
+   every written block (and of the buffered one) is resolved completely by the generic readers in its block's final tables - client / server
+   address, signature and its class/type, name and address indices, query name, bailiwick, the eight section lists with their question / RR
+   entries and those entries' name, class/type and RDATA indices, malformed-message data and its address (the readers return None as soon as
+   a single index is out of range) *)
+Theorem C02_indices_resolve : forall pre ops, let x := xrun (x_new pre) ops in
+  Forall (fun b => Forall (fun o => o <> None) (blk_view_qr b) /\ Forall (fun o => o <> None) (blk_view_mm b)) (x_done x ++ [x_blk x]).
+Proof. exact indices_resolve. Qed.
+Print Assumptions C02_indices_resolve.
 
 Example C02_nonvacuous : has_ty BlockStatistics (VR [None; None; Some (VN 7); None; None; None]) /\
   fst (write_struct BlockStatistics (VR [None; None; Some (VN 7); None; None; None])) = [161; 2; 7].
